@@ -1777,6 +1777,7 @@ func (self *LockDB) doTimeOut(lock *Lock, forcedExpried bool, removeWaited bool)
 		} else {
 			_ = lockProtocol.FreeLockCommandLocked(lockCommand)
 		}
+		self.wakeUpWaitLocks(lockManager, nil)
 	}
 }
 
@@ -2721,9 +2722,7 @@ func (self *LockDB) cancelWaitLock(lockManager *LockManager, command *protocol.L
 	_ = lockProtocol.ProcessLockResultCommandLocked(lockCommand, protocol.RESULT_UNLOCK_ERROR, uint16(lockManager.locked), waitLock.locked, lockManager.GetLockData())
 	_ = lockProtocol.FreeLockCommandLocked(lockCommand)
 
-	if lockLocked > 0 {
-		self.wakeUpWaitLocks(lockManager, nil)
-	}
+	self.wakeUpWaitLocks(lockManager, nil)
 }
 
 func (self *LockDB) addUnlockLockCommandToWaitLock(lockManager *LockManager, command *protocol.LockCommand, requestCommand *protocol.LockCommand, serverProtocol ServerProtocol) {
